@@ -29,10 +29,10 @@ RULE = ('three families. (1) small generated uamiv files (1-2 species, 1-2 layer
         'block boundary +-{0..4} bytes and random offsets; oracle: leading steps identical to the full file, or - for a '
         'cut at a block boundary inside the first step, where the prefix is itself a valid file with fewer tracers - '
         'identical data of the tracers present. (4) wind (Memmap reader): cuts around every step boundary and random offsets, '
-        'oracle as above plus "returns within 5 s"; non-trivial = cut inside the time-step region')
+        'oracle as above plus "returns within 5 s"; (5) lateral boundary files (Memmap reader, mode r and r+ alternating): cuts around every record boundary and random offsets; oracle as above plus "the file on disk keeps its size"; non-trivial = cut inside the time-step region')
 ASSUMPTIONS = ['numpy.memmap raises when offset+shape exceeds the file (modelled as error)',
                'the theorems (prefix_safe, odd_cut_raises) are about the uamiv reader model; slab formats are tied by the '
-               'correspondence with the Lean reader model, bpch and wind by the oracle only; lateral_boundary and cloud_rain are not in this check']
+               'correspondence with the Lean reader model, bpch, wind and lateral_boundary by the oracle only; cloud_rain is not in this check']
 MIN_NONTRIVIAL = {'quick': 40, 'thorough': 400}
 NPROC = {'quick': 1, 'thorough': 12}
 
@@ -84,7 +84,10 @@ def gen(rng, tier):
     if tier != 'quick':
         fmts = fmts * 2 + sorted(S.FORMATS)
     for fmt in fmts:
-        c = S.gen(rng, fmt)
+        while True:
+            c = S.gen(rng, fmt, longspan=False)
+            if c['nz'] >= 2 and len(c['flags']) >= 3:      # cuts on record boundaries inside a later step are the interesting ones
+                break
         c['nx'], c['ny'] = min(c['nx'], 2), min(c['ny'], 2)
         c['data'] = [[sl[:c['nx'] * c['ny']] for sl in slabs] for slabs in c['data']]
         rec = 4 * (c['nx'] * c['ny'] + 4)
@@ -110,6 +113,25 @@ def gen(rng, tier):
             cuts |= {rng.randrange(size) for _ in range(40)}
         for n in sorted(cuts):
             out.append(dict(family='wind', spec=c, cut=n))
+    # lateral boundary files (Memmap reader, read-only and in-place modes; oracle only)
+    for fi in range(1 if tier == 'quick' else 4):
+        c = S.gen_bnd(rng)
+        c['species'] = c['species'][:2]
+        c['nz'] = min(c['nz'], 2)
+        c['bdata'] = [[[e[:(c['ny'] if ei < 2 else c['nx']) * c['nz']] for ei, e in enumerate(sp)] for sp in step[:2]] for step in c['bdata']]
+        recs = S.bnd_records(c)
+        marks, pos = [0], 0
+        for r in recs:
+            pos += len(r) + 8
+            marks.append(pos)
+        size = pos
+        if tier == 'thorough':
+            cuts = range(size)
+        else:
+            cuts = {mk + d for mk in marks for d in (-4, -1, 0, 1, 4, 12) if 0 <= mk + d < size}
+            cuts |= {rng.randrange(size) for _ in range(30)}
+        for n in sorted(cuts):
+            out.append(dict(family='bnd', spec=c, cut=n, mode='r+' if n % 2 else 'r'))
     # bpch
     for fi in range(2 if tier == 'quick' else 8):
         c = B.gen(rng)
@@ -183,6 +205,47 @@ def _wind_full(spec):
     return _CACHE[key]
 
 
+def _bnd_read(spec, b, mode='r'):
+    from PseudoNetCDF.camxfiles.lateral_boundary.Memmap import lateral_boundary
+    p = os.path.join(camx.tmpdir(), 'c14l_%d_%d.bin' % (os.getpid(), np.random.randint(1 << 30)))
+    open(p, 'wb').write(b)
+    try:
+        f = lateral_boundary(p, mode=mode)
+        v = S.bnd_view(f, spec)
+        del f
+        v['size_after'] = os.path.getsize(p)
+        return v
+    finally:
+        os.remove(p)
+
+
+def _bnd_full(spec):
+    key = 'bnd' + json.dumps(spec, sort_keys=True)
+    if key not in _CACHE:
+        b = S.bnd_encode(spec)
+        _CACHE[key] = (b, _bnd_read(spec, b))
+    return _CACHE[key]
+
+
+def _oracle_bnd(case, res):
+    b, full = _bnd_full(case['spec'])
+    v = res['view']
+    if v['size_after'] != case['cut']:
+        return 'opening a prefix of %d bytes (mode %s) changed the file on disk to %d bytes' % (case['cut'], case.get('mode'), v['size_after'])
+    for k in ('nz', 'ny', 'nx'):
+        if v[k] != full[k]:
+            return 'prefix of %d bytes presents %s=%s, the full file %s' % (case['cut'], k, v[k], full[k])
+    k = v['nt']
+    if k > full['nt']:
+        return 'prefix presents %d steps, the full file has %d' % (k, full['nt'])
+    for name, rows in v['vars'].items():
+        if rows != full['vars'][name][:k]:
+            return 'prefix of %d bytes (mode %s): %s differs from the first %d steps of the full file' % (case['cut'], case.get('mode'), name, k)
+    if v['tflag'] != full['tflag'][:k] or v['etflag'] != full['etflag'][:k]:
+        return 'prefix presents time flags %s, the full file %s' % (v['tflag'], full['tflag'])
+    return None
+
+
 def _bpch_read(spec, b):
     from PseudoNetCDF.geoschemfiles._bpch import bpch1
     from . import c18
@@ -209,10 +272,13 @@ def impl(case):
     fam = case.get('family', 'uamiv')
     if fam != 'uamiv':
         with lib.pnc_warnings():
-            b, full = {'slab': _slab_full, 'bpch': _bpch_full, 'wind': _wind_full}[fam](case['spec'])
+            b, full = {'slab': _slab_full, 'bpch': _bpch_full, 'wind': _wind_full, 'bnd': _bnd_full}[fam](case['spec'])
             p = b[:case['cut']]
             try:
-                v = {'slab': _slab_read, 'bpch': _bpch_read, 'wind': _wind_read}[fam](case['spec'], p)
+                if fam == 'bnd':
+                    v = _bnd_read(case['spec'], p, case.get('mode', 'r'))
+                else:
+                    v = {'slab': _slab_read, 'bpch': _bpch_read, 'wind': _wind_read}[fam](case['spec'], p)
                 return dict(view=v, hex=p.hex())
             except lib.HarnessError:
                 raise
@@ -236,7 +302,7 @@ def to_line(case, res):
         n = len(h) // 8
         c = case['spec']
         return 'bin slab-mm %s %d %s' % (S.FORMATS[c['fmt']][0], c['nx'] * c['ny'], h[:8 * n] or '-')
-    if fam in ('bpch', 'wind'):
+    if fam in ('bpch', 'wind', 'bnd'):
         return 'bin slab-mm one3d 1 -'          # no model question for bpch / wind prefixes (oracle only)
     h = res['hex']
     n = len(h) // 8
@@ -245,7 +311,7 @@ def to_line(case, res):
 
 def agree(case, out, res):
     fam = case.get('family', 'uamiv')
-    if fam in ('bpch', 'wind'):
+    if fam in ('bpch', 'wind', 'bnd'):
         return None
     if fam == 'slab':
         if len(res['hex']) % 8 != 0:
@@ -332,6 +398,8 @@ def oracle(case, res):
         return _oracle_bpch(case, res)
     if fam == 'wind':
         return _oracle_wind(case, res)
+    if fam == 'bnd':
+        return _oracle_bnd(case, res)
     b, full = _file_bytes(case['spec'])
     v = res['view']
     if 'inconsistent' in v:
